@@ -125,6 +125,18 @@ def cases(rng, tier):
                     out.append(("%s 3 in position %s, listing %s%s" % (kind, pos, names, " + .." if rest else ""),
                                 program(value_of(kind, 3), pattern_of(kind, 3, names, rest), pos),
                                 expected_struct(3, names, rest), "position"))
+    # a FIELD's pattern that accepts anything (`_`, or the range-full `..` the macro's grammar also reads in that place) says nothing
+    # about the struct's other fields: only a `..` written at the struct's own level does
+    v3w = value_of("struct", 3)
+    for anyp in ("_", ".."):
+        for lhs in ("a", "*a", "a.clone()", "a.abs()"):
+            out.append(("struct 3, `%s: %s` beside one listed field, a third omitted" % (lhs, anyp), program(v3w, "S3 { %s: %s, b: 2 }" % (lhs, anyp)), False, "omission"))
+            out.append(("variant 3, `%s: %s` beside one listed field, a third omitted" % (lhs, anyp), program(value_of("variant", 3), "E::V3 { %s: %s, b: 2 }" % (lhs, anyp)), False, "omission"))
+        out.append(("struct 3, `zz: %s` (no such field) + .." % anyp, program(v3w, "S3 { zz: %s, .. }" % anyp), False, "unknown"))
+        out.append(("struct 3, `zz: %s` (no such field) beside all real ones" % anyp, program(v3w, "S3 { a: 1, b: 2, c: 3, zz: %s }" % anyp), False, "unknown"))
+        out.append(("struct 3, `zz.abs(): %s` (no such field) + .." % anyp, program(v3w, "S3 { zz.abs(): %s, .. }" % anyp), False, "unknown"))
+        out.append(("nested: Some(S3 { a: %s, b: 2 })" % anyp, program("Some(%s)" % v3w, "Some(S3 { a: %s, b: 2 })" % anyp), False, "omission"))
+    out.append(("struct 3, every field `_`", program(v3w, "S3 { a: _, b: _, c: _ }"), True, "control"))
     # a type or variant that is not the value's
     v3 = value_of("struct", 3)
     full = ["a", "b", "c"]
